@@ -96,7 +96,34 @@ type c13Driver struct {
 	parks []c13Park
 	calls []string
 	nins  int
-	out   *json.Encoder
+	// state of the data file right after the statement's first change (nil: no change yet)
+	first   *c13Snap
+	firstAt time.Time
+	out     *json.Encoder
+}
+
+// changed notes the first change of the current statement.
+func (d *c13Driver) changed() {
+	if d.first == nil {
+		s := c13Snapshot(d.file)
+		d.first, d.firstAt = &s, time.Now()
+	}
+}
+
+// span compares the data file with what it was right after the statement's first change: the whole
+// stretch from there to the log append must be free of page and header writes, wherever inside it a
+// park let the flusher queue up.
+func (d *c13Driver) span(point string) {
+	if d.first == nil {
+		return
+	}
+	after := c13Snapshot(d.file)
+	d.parks = append(d.parks, c13Park{
+		Point: point, Ms: int(time.Since(d.firstAt).Milliseconds()),
+		MtimeChanged:   !d.first.mtime.Equal(after.mtime),
+		SizeChanged:    d.first.size != after.size,
+		ContentChanged: d.first.hash != after.hash,
+	})
 }
 
 // park sleeps once per armed point and records whether the data file moved meanwhile.
@@ -147,19 +174,19 @@ func (r *c13RM) Fetch(t string) ([]*storage.Row, []*storage.Field, error) {
 func (r *c13RM) Insert(t string, cols []string, vals []interface{}) (storage.WALBatch, error) {
 	r.d.calls = append(r.d.calls, "Insert")
 	b, err := r.RelationService.Insert(t, cols, vals)
+	r.d.changed()
 	r.d.park("after-change")
 	r.d.nins++
-	if r.d.nins == 200 {
-		// deep inside a long multi-row statement (added by the main session: a statement must stay
-		// one critical section however many rows it has)
-		r.d.park("after-change-row-200")
-	}
+	// deep inside a long multi-row statement (added by the main session: a statement must stay
+	// one critical section however many rows it has)
+	r.d.park(fmt.Sprintf("after-change-row-%d", r.d.nins))
 	return b, err
 }
 
 func (r *c13RM) Update(t string, rowID uint32, cols []string, src []interface{}) (storage.WALBatch, error) {
 	r.d.calls = append(r.d.calls, "Update")
 	b, err := r.RelationService.Update(t, rowID, cols, src)
+	r.d.changed()
 	r.d.park("after-change")
 	return b, err
 }
@@ -167,6 +194,7 @@ func (r *c13RM) Update(t string, rowID uint32, cols []string, src []interface{})
 func (r *c13RM) MarkDeleted(t string, rowID uint32) (storage.WALBatch, error) {
 	r.d.calls = append(r.d.calls, "MarkDeleted")
 	b, err := r.RelationService.MarkDeleted(t, rowID)
+	r.d.changed()
 	r.d.park("after-change")
 	return b, err
 }
@@ -174,6 +202,7 @@ func (r *c13RM) MarkDeleted(t string, rowID uint32) (storage.WALBatch, error) {
 func (r *c13RM) FlushWALBatch(b storage.WALBatch) error {
 	r.d.calls = append(r.d.calls, "FlushWALBatch")
 	r.d.park("before-log-append")
+	r.d.span("span:first-change..log-append")
 	err := r.RelationService.FlushWALBatch(b)
 	r.d.park("after-log-append")
 	return err
@@ -223,6 +252,7 @@ func (d *c13Driver) execParked(kind, q string, points []string) error {
 	d.parks = nil
 	d.calls = nil
 	d.nins = 0
+	d.first = nil
 	if len(points) == 0 {
 		st.Phase = "traced"
 	}
@@ -379,7 +409,8 @@ func (d *c13Driver) run() error {
 		{"delete", "DELETE FROM t2 WHERE id = 2"},
 	}
 	if !c.SkipParked && (c.Only == "" || c.Only == "insert") {
-		// one long INSERT (260 rows), parked after its 200th row and before its log append
+		// one long INSERT (260 rows), parked after its 3rd, 100th and 200th row and before its log append;
+		// the span from its first change to its log append is watched as a whole
 		var sb strings.Builder
 		sb.WriteString("INSERT INTO t2 (id, name, n) VALUES ")
 		for i := 0; i < 260; i++ {
@@ -388,7 +419,7 @@ func (d *c13Driver) run() error {
 			}
 			fmt.Fprintf(&sb, "(%d, 'r', %d)", 1000+i, i)
 		}
-		if err := d.execParked("insert", sb.String(), []string{"after-change-row-200", "before-log-append"}); err != nil {
+		if err := d.execParked("insert", sb.String(), []string{"after-change-row-3", "after-change-row-100", "after-change-row-200", "before-log-append"}); err != nil {
 			return err
 		}
 	}
